@@ -1,9 +1,11 @@
 #!/bin/sh
 # usage: try_mutation.sh <property> <patch.diff> [check args...]  — applies the patch to /repo, runs the check, reverts.
 id="$1"; patch="$2"; shift 2
-cd /repo || exit 2
+# TRY_REPO: a scratch copy of /repo to mutate instead of /repo itself (default /repo)
+R=${TRY_REPO:-/repo}
+cd $R || exit 2
 git status --short | grep -q . && { echo "repo not clean"; exit 2; }
 git apply "$patch" || { echo "patch does not apply"; exit 2; }
-cd /verif && ./check "$id" "$@" > /tmp/try_$id.log 2>&1; rc=$?
-git -C /repo checkout -- . 
+cd /verif && ./check "$id" --repo $R "$@" > /tmp/try_$id.log 2>&1; rc=$?
+git -C $R checkout -- . 
 echo "exit=$rc"; grep -E "^VIOLATION|counterexample|^KNOWN|^C[0-9]+ " /tmp/try_$id.log | cut -c1-300 | head -8
